@@ -33,7 +33,7 @@ inductive Stage where
   | parse        -- syntax error, unknown directive, missing import: nothing has run
   | setupEarly   -- a directive that runs before `on` rejects its arguments (also: missing TLS files)
   | setupLate    -- a directive that runs after `on` rejects its arguments: hooks are already registered
-  | startup      -- an OnStartup callback fails (e.g. the access log cannot be opened)
+  | startup      -- after the directives, not reached by a validation: MakeServers refuses, or an OnStartup callback fails (e.g. the access log cannot be opened)
 deriving DecidableEq, Repr
 
 structure Cfg where
